@@ -351,3 +351,236 @@ def general_families():
             DefinedSymbols("defined_states", "MethodStateToDefinedLoader", True),
         ]}
     return GENERAL
+
+
+# ================================================================================================ dict-backed loaders
+# One file, an in-memory container, save / get / export / restore.  The durable model is exact: the file holds what the
+# container held at the last successful export.
+
+class DictFam:
+    name = ""
+    cls = ""
+
+    def make(self, d):
+        return getattr(_L, self.cls)(os.path.join(d, self.name))
+
+    def gen(self, rng, tok, size):
+        raise NotImplementedError
+
+    def apply(self, loader, model, desc):
+        """perform the save on the real loader AND on the pure model (a plain dict of canonical-isable values)."""
+        raise NotImplementedError
+
+    def snapshot(self, loader):
+        """public containers of the loader, as plain objects (for canon / canon_guided)."""
+        raise NotImplementedError
+
+    def model_snapshot(self, model):
+        return model
+
+
+class OneToMany(DictFam):
+    def __init__(self, name, cls):
+        self.name, self.cls = name, cls
+
+    def gen(self, rng, tok, size):
+        return {"one": rng.choice([11, 12, 13]), "many": [tok + 1 + i for i in range(max(1, size))], "as_set": rng.random() < 0.3}
+
+    def apply(self, loader, model, desc):
+        many = set(desc["many"]) if desc["as_set"] else list(desc["many"])
+        loader.save(desc["one"], many)
+        model.setdefault("one_to_many", {})[desc["one"]] = set(desc["many"]) if desc["as_set"] else list(desc["many"])
+        for m in desc["many"]:
+            model.setdefault("many_to_one", {})[m] = desc["one"]
+
+    def snapshot(self, loader):
+        # the reverse map is compared for the ids currently listed only: an association overwritten by a later save of the
+        # same key is not "an item saved" (the live loader keeps the stale reverse entry, a restored one does not)
+        cur = {m for many in loader.one_to_many.values() for m in many}
+        return {"one_to_many": loader.one_to_many, "many_to_one": {m: o for m, o in loader.many_to_one.items() if m in cur}}
+
+    def model_snapshot(self, model):
+        cur = {m for many in model.get("one_to_many", {}).values() for m in many}
+        return {"one_to_many": model.get("one_to_many", {}), "many_to_one": {m: o for m, o in model.get("many_to_one", {}).items() if m in cur}}
+
+
+class NameToIds(DictFam):
+    """ClassIdToNameLoader / MethodIDToMethodNameLoader: save(name, id) accumulates a set per name"""
+    def __init__(self, name, cls):
+        self.name, self.cls = name, cls
+
+    def gen(self, rng, tok, size):
+        return {"name": rng.choice(["tkname_a", "tkname_b", f"tk{tok}_n"]), "id": tok + 1}
+
+    def apply(self, loader, model, desc):
+        loader.save(desc["name"], desc["id"])
+        model.setdefault("one_to_many", {}).setdefault(desc["name"], set()).add(desc["id"])
+        model.setdefault("many_to_one", {})[desc["id"]] = desc["name"]
+
+    def snapshot(self, loader):
+        return {"one_to_many": loader.one_to_many, "many_to_one": loader.many_to_one}
+
+
+class StmtScope(DictFam):
+    name, cls = "stmt_id_to_scope_id", "StmtIDToScopeIDLoader"
+
+    def gen(self, rng, tok, size):
+        return {"map": [[tok + 1 + i, tok + 500 + rng.randrange(3)] for i in range(size)]}
+
+    def apply(self, loader, model, desc):
+        loader.save({a: b for a, b in desc["map"]})
+        model.setdefault("stmt_id_to_scope_id", {}).update({a: b for a, b in desc["map"]})
+
+    def snapshot(self, loader):
+        return {"stmt_id_to_scope_id": loader.stmt_id_to_scope_id}
+
+
+class EntryPoints(DictFam):
+    name, cls = "entry_points", "EntryPointsLoader"
+
+    def gen(self, rng, tok, size):
+        return {"ids": [tok + 1 + i for i in range(max(1, size))]}
+
+    def apply(self, loader, model, desc):
+        loader.save(list(desc["ids"]))
+        model.setdefault("entry_points", set()).update(desc["ids"])
+
+    def snapshot(self, loader):
+        return {"entry_points": loader.entry_points}
+
+
+class CallGraphFam(DictFam):
+    name, cls = "call_graph", "CallGraphLoader"
+
+    def gen(self, rng, tok, size):
+        return {"edges": [[tok + 1 + i, tok + 2 + i, tok + 100 + i] for i in range(max(1, size))]}
+
+    def apply(self, loader, model, desc):
+        g = _CS.CallGraph()
+        for a, b, w in desc["edges"]:
+            g.add_edge(a, b, w)
+        loader.save(g)
+        g2 = _CS.CallGraph()
+        for a, b, w in desc["edges"]:
+            g2.add_edge(a, b, w)
+        model["call_graph"] = g2
+
+    def snapshot(self, loader):
+        return {"call_graph": loader.call_graph}
+
+
+class CallPaths(DictFam):
+    name, cls = "call_paths", "CallPathLoader"
+
+    def gen(self, rng, tok, size):
+        return {"paths": [[[tok + 1 + i, tok + 10 + j, tok + 20 + j] for j in range(rng.randint(1, 3))] for i in range(max(1, size))]}
+
+    def apply(self, loader, model, desc):
+        def build():
+            return {_CS.CallPath(tuple(_CS.CallSite(*s) for s in p)) for p in desc["paths"]}
+        loader.save(build())
+        model["all_paths"] = build()
+
+    def snapshot(self, loader):
+        return {"all_paths": loader.all_paths}
+
+
+class InternalCallees(DictFam):
+    name, cls = "internal_callees", "MethodInternalCalleesLoader"
+
+    def gen(self, rng, tok, size):
+        return {"method": rng.choice([11, 12, 13]),
+                "callees": [[rng.choice([0, 1, 2]), tok + 1 + i, tok + 100 + i, i] for i in range(max(1, size))]}
+
+    def apply(self, loader, model, desc):
+        def build():
+            return {_CS.MethodInternalCallee(desc["method"], a, b, c, d) for a, b, c, d in desc["callees"]}
+        loader.save(desc["method"], build())
+        model.setdefault("method_internal_callees_records", {})[desc["method"]] = build()
+
+    def snapshot(self, loader):
+        return {"method_internal_callees_records": loader.method_internal_callees_records}
+
+
+class DefUseSummary(DictFam):
+    name, cls = "def_use_summary", "MethodDefUseSummaryLoader"
+
+    def gen(self, rng, tok, size):
+        return {"method": rng.choice([11, 12, 13]), "params": [[tok + 1 + i, rng.choice([-1, tok + 50 + i])] for i in range(size)],
+                "locals": [tok + 100 + i for i in range(size)], "defext": [tok + 200], "useext": [tok + 300, tok + 301][:rng.randint(0, 2)],
+                "ret": [tok + 400][:rng.randint(0, 1)], "this": rng.choice([-1, tok + 500])}
+
+    def apply(self, loader, model, desc):
+        def build():
+            return _CS.MethodDefUseSummary(desc["method"], {tuple(p) for p in desc["params"]}, set(desc["locals"]), set(desc["defext"]),
+                                           set(desc["useext"]), set(desc["ret"]), desc["this"])
+        loader.save(desc["method"], build())
+        model.setdefault("method_summary_records", {})[desc["method"]] = build()
+
+    def snapshot(self, loader):
+        return {"method_summary_records": loader.method_summary_records}
+
+
+class ExternalSymbolIds(DictFam):
+    name, cls = "external_symbol_ids", "ExternalSymbolIDCollectionLoader"
+
+    def gen(self, rng, tok, size):
+        return {"method": rng.choice([11, 12, 13]), "ids": [tok + 1 + i for i in range(max(1, size))], "form": rng.choice(["dict", "list", "set"])}
+
+    def apply(self, loader, model, desc):
+        ids = desc["ids"]
+        arg = {f"tk{v}_s": v for v in ids} if desc["form"] == "dict" else (list(ids) if desc["form"] == "list" else set(ids))
+        loader.save_external_symbol_id_collection(desc["method"], arg)
+        model.setdefault("method_id_to_external_symbol_id_collection", {})[desc["method"]] = set(ids)
+
+    def snapshot(self, loader):
+        return {"method_id_to_external_symbol_id_collection": loader.method_id_to_external_symbol_id_collection}
+
+
+class UnitStmtIds(DictFam):
+    name, cls = "unit_id_to_stmt_ids", "UnitIDToStmtIDLoader"
+
+    def gen(self, rng, tok, size):
+        return {"unit": rng.choice([11, 12, 13]), "lo": tok + 1, "n": max(1, size)}
+
+    def apply(self, loader, model, desc):
+        ids = list(range(desc["lo"], desc["lo"] + desc["n"]))       # contiguous: the file format stores (min, max) per unit
+        loader.save(desc["unit"], ids)
+        old = model.setdefault("unit_id_to_stmt_ids", {}).get(desc["unit"])
+        model["unit_id_to_stmt_ids"][desc["unit"]] = ids
+        m2 = model.setdefault("stmt_id_to_unit_id", {})
+        for i in ids:
+            m2[i] = desc["unit"]
+
+    def snapshot(self, loader):
+        cur = {i for ids in loader.unit_id_to_stmt_ids.values() for i in ids}      # see OneToMany.snapshot
+        return {"unit_id_to_stmt_ids": loader.unit_id_to_stmt_ids, "stmt_id_to_unit_id": {i: u for i, u in loader.stmt_id_to_unit_id.items() if i in cur}}
+
+    def model_snapshot(self, model):
+        cur = {i for ids in model.get("unit_id_to_stmt_ids", {}).values() for i in ids}
+        return {"unit_id_to_stmt_ids": model.get("unit_id_to_stmt_ids", {}),
+                "stmt_id_to_unit_id": {i: u for i, u in model.get("stmt_id_to_unit_id", {}).items() if i in cur}}
+
+
+DICT = None
+
+
+def dict_families():
+    global DICT
+    if DICT is None:
+        fams = [OneToMany(n, c) for n, c in [
+            ("unit_id_to_method_id", "UnitIDToMethodIDLoader"), ("unit_id_to_class_id", "UnitIDToClassIDLoader"),
+            ("class_id_to_stmt_id", "ClassIDToStmtIDLoader"), ("method_id_to_stmt_id", "MethodIDToStmtIDLoader"),
+            ("unit_id_to_namespace_id", "UnitIDToNamespaceIDLoader"), ("unit_id_to_variable_id", "UnitIDToVariableIDLoader"),
+            ("unit_id_to_import_stmt_id", "UnitIDToImportStmtIDLoader"), ("method_id_to_parameter_id", "MethodIDToParameterIDLoader"),
+            ("class_id_to_method_id", "ClassIDToMethodIDLoader"), ("class_id_to_field_id", "ClassIDToFieldIDLoader")]]
+        fams += [NameToIds("class_id_to_class_name", "ClassIdToNameLoader"), NameToIds("method_id_to_method_name", "MethodIDToMethodNameLoader"),
+                 StmtScope(), EntryPoints(), CallGraphFam(), CallPaths(), InternalCallees(), DefUseSummary(), ExternalSymbolIds(), UnitStmtIds()]
+        DICT = {f.name: f for f in fams}
+    return DICT
+
+
+DICT_NAMES = ["unit_id_to_method_id", "unit_id_to_class_id", "class_id_to_stmt_id", "method_id_to_stmt_id", "unit_id_to_namespace_id",
+              "unit_id_to_variable_id", "unit_id_to_import_stmt_id", "method_id_to_parameter_id", "class_id_to_method_id",
+              "class_id_to_field_id", "class_id_to_class_name", "method_id_to_method_name", "stmt_id_to_scope_id", "entry_points",
+              "call_graph", "call_paths", "internal_callees", "def_use_summary", "external_symbol_ids", "unit_id_to_stmt_ids"]
